@@ -184,7 +184,7 @@ TEXT_ATTRS = ("text_font", "text_font_size", "text_format", "text_color", "text_
 
 
 @st.composite
-def shaped(draw, name, cfg: Cfg, nrow, ncol, shapes=("scalar", "per_column", "matrix", "per_row")):
+def shaped(draw, name, cfg: Cfg, nrow, ncol, shapes=("scalar", "per_column", "matrix", "per_row", "pattern")):
     el = _val_strategy(name, cfg)
     shape = draw(st.sampled_from(shapes))
     nrow = max(nrow, 1)
@@ -195,7 +195,10 @@ def shaped(draw, name, cfg: Cfg, nrow, ncol, shapes=("scalar", "per_column", "ma
             return [draw(el)] * ncol
         return [draw(el) for _ in range(ncol)]
     if shape == "per_row":
-        return {"t": [draw(el) for _ in range(nrow)]}
+        k = nrow if draw(st.booleans()) else draw(st.integers(1, min(nrow, 3)))
+        return {"t": [draw(el) for _ in range(k)]}
+    if shape == "pattern":      # a short matrix recycled down the rows
+        nrow = draw(st.integers(1, min(nrow, 3)))
     rows = []
     for _ in range(nrow):
         if name in ROW_LEVEL:
@@ -277,7 +280,7 @@ def page_spec(draw, cfg: Cfg, nrow=None):
 
 
 @st.composite
-def header_specs(draw, cfg: Cfg, ndisp, mode=None, sec_tag=""):
+def header_specs(draw, cfg: Cfg, ndisp, mode=None, sec_tag="", ncol=None):
     mode = mode or draw(st.sampled_from(cfg.header_modes))
     if mode in ("default", "none"):
         return mode, mode
@@ -287,6 +290,8 @@ def header_specs(draw, cfg: Cfg, ndisp, mode=None, sec_tag=""):
         top = {"text": [f"@H{sec_tag}0.{c}" for c in range(k)], "col_rel_width": [draw(st.integers(1, 4)) for _ in range(k)]}
         rows.append(top)
     r = len(rows)
+    if mode == "explicit_all":   # one label per ORIGINAL column, even if page_by / subline_by remove some
+        ndisp = ncol or ndisp
     h = {"text": [draw(tag_text(f"@H{sec_tag}{r}.{c}", cfg, 4)) for c in range(ndisp)]}
     if mode == "explicit_w":
         if cfg.rel_width_floats:
@@ -385,7 +390,7 @@ def table_section(draw, cfg: Cfg, sec_index=0, multi=False):
     sec = {"df": {"cols": cols}, "body": body}
     from .recipe import displayed_columns
     ndisp = len(displayed_columns(sec))
-    mode, hs = draw(header_specs(cfg, ndisp, sec_tag=f"{sec_index}x" if multi else ""))
+    mode, hs = draw(header_specs(cfg, ndisp, sec_tag=f"{sec_index}x" if multi else "", ncol=ncol))
     sec["headers"] = hs
     return sec, strat, mode
 
